@@ -871,7 +871,8 @@ func runOp(c *ctx, u uhppote.IUHPPOTE, d *fake.Driver, g cfgGen, op opDef, dev u
 }
 
 func genDev(r *rng.R) uint32 {
-	return rng.Pick(r, uint32(405419896), 303986753, 1, 0xff000000, 0x00ff0000, 0xffffffff, 0x80000000, r.U32(), r.U32())
+	// (serial numbers start with the controller model's door count by convention: 1xxxxxxxx .. 4xxxxxxxx)
+	return rng.Pick(r, uint32(405419896), 303986753, 1, 0xff000000, 0x00ff0000, 0xffffffff, 0x80000000, r.U32(), r.U32(), 123456789, 201020304, 299999999)
 }
 
 func streamOps(c *ctx) {
